@@ -92,6 +92,43 @@ AllInds(S, n) == Flatten(Nd(S, n).q)
 WaitingOf(S, ids) == SelectSeq(ids, LAMBDA i : Cu(S, i).srv = 0)
 
 ----------------------------------------------------------------------------
+(* Deadlock detection (ciw/deadlock/deadlock_detector.py, StateDigraph): vertices are servers      *)
+(* <<node, server id>>, S.dg is the set of edges <<n1, s1, n2, s2>>.                                *)
+
+HasDetector(S) == S.cfg.detector = "digraph"
+
+\* action_at_blockage: edges from the blocked customer's server to every server of the destination
+DgBlock(S, n, sid, d) ==
+    IF ~HasDetector(S) THEN S
+    ELSE [S EXCEPT !.dg = @ \cup {<<n, sid, d, Nd(S, d).srv[a].id>> : a \in DOMAIN Nd(S, d).srv}]
+
+\* action_at_attach_server: customers still blocked to this node point to the newly attached server again
+DgAttach(S, n, sid, i) ==
+    IF ~HasDetector(S) THEN S
+    ELSE [S EXCEPT !.dg = @ \cup {<<bq[1], Cu(S, bq[2]).srv, n, sid>> :
+                                     bq \in {b \in Range(Nd(S, n).bq) : b[2] # i /\ HasCu(S, b[2])}}]
+
+\* action_at_detatch_server: all edges in and out of the server disappear
+DgDetach(S, n, sid) ==
+    IF ~HasDetector(S) THEN S
+    ELSE [S EXCEPT !.dg = {e \in @ : ~((e[1] = n /\ e[2] = sid) \/ (e[3] = n /\ e[4] = sid))}]
+
+\* is there a knot?  (strongly connected component without an edge leaving it; a singleton needs a self-loop)
+Knot(E) ==
+    LET V == {<<e[1], e[2]>> : e \in E} \cup {<<e[3], e[4]>> : e \in E}
+        Succ(v) == {<<e[3], e[4]>> : e \in {f \in E : f[1] = v[1] /\ f[2] = v[2]}}
+        RECURSIVE ReachFrom(_, _)
+        ReachFrom(front, seen) ==
+            LET nxt == UNION {Succ(v) : v \in front} \ seen
+            IN IF nxt = {} THEN seen ELSE ReachFrom(nxt, seen \cup nxt)
+        Desc(v) == ReachFrom({v}, {})          \* vertices reachable by at least one edge
+        SCC(v) == {v} \cup {u \in Desc(v) : v \in Desc(u)}
+    IN \E v \in V :
+          LET c == SCC(v)
+          IN IF Cardinality(c) = 1 THEN Succ(v) = {v}
+             ELSE \E u \in c : Desc(u) \ {u} \subseteq c
+
+----------------------------------------------------------------------------
 (* Servers *)
 
 SrvIdx(S, n, sid) == CHOOSE j \in DOMAIN Nd(S, n).srv : Nd(S, n).srv[j].id = sid
@@ -127,7 +164,7 @@ Attach(S, n, sid, i) ==
     LET s == Srv(S, n, sid)
         S1 == Step(S, [St("attach") EXCEPT !.n = n, !.s = sid, !.i = i])
         S2 == SetSrv(S1, n, sid, [s EXCEPT !.cust = i, !.busy = TRUE])
-    IN SetCu(S2, i, [Cu(S2, i) EXCEPT !.srv = sid])
+    IN DgAttach(SetCu(S2, i, [Cu(S2, i) EXCEPT !.srv = sid]), n, sid, i)
 
 KillServer(S, n, sid) ==
     LET nd == Nd(S, n)
@@ -141,7 +178,7 @@ KillServer(S, n, sid) ==
 \* detatch_server: credit = exit_date - service_start_date as the code computes it
 Detach(S, n, sid, i, credit) ==
     LET s == Srv(S, n, sid)
-        S1 == Step(S, [St("detach") EXCEPT !.n = n, !.s = sid, !.i = i])
+        S1 == DgDetach(Step(S, [St("detach") EXCEPT !.n = n, !.s = sid, !.i = i]), n, sid)
         S2 == SetSrv(S1, n, sid, [s EXCEPT !.cust = 0, !.busy = FALSE, !.bt = @ + credit])
         S3 == SetCu(S2, i, [Cu(S2, i) EXCEPT !.srv = 0])
     IN IF s.off THEN KillServer(S3, n, sid) ELSE S3
@@ -553,7 +590,7 @@ Release(S, n, i, d, reroute) ==
            S2 == IF reroute THEN S1 ELSE WriteRec(S1, i, rec)
            S3 == IF finite /\ IsDeadRef(c.srv)
                  THEN \* the removed server object is detached; nothing of the node changes
-                      SetCu(Step(S2, [St("detach") EXCEPT !.n = n, !.s = DeadId(c.srv), !.i = i]), i,
+                      SetCu(DgDetach(Step(S2, [St("detach") EXCEPT !.n = n, !.s = DeadId(c.srv), !.i = i]), n, DeadId(c.srv)), i,
                             [Cu(S2, i) EXCEPT !.srv = 0])
                  ELSE IF finite THEN Detach(S2, n, c.srv, i, S.now - c.ss)
                  ELSE IF IsSlotted(S, n) THEN SetCu(S2, i, [Cu(S2, i) EXCEPT !.srv = 0])
@@ -590,8 +627,9 @@ ReleaseBlocked(S, m) ==
 Block(S, n, i, d) ==
     LET S0 == Step(S, [St("block") EXCEPT !.n = n, !.i = i, !.d = d, !.x = Nd(S, d).count, !.y = Nd(S, d).cap])
         S1 == TrkBlock(SetCu(S0, i, [Cu(S0, i) EXCEPT !.blk = TRUE]), n, d, i)
-    IN [S1 EXCEPT !.nodes[d].bq = Append(@, <<n, i>>), !.nodes[d].lbq = @ + 1, !.unchecked = TRUE,
-                  !.gb = Append(@, <<n, i, d>>)]
+        S2 == [S1 EXCEPT !.nodes[d].bq = Append(@, <<n, i>>), !.nodes[d].lbq = @ + 1, !.unchecked = TRUE,
+                         !.gb = Append(@, <<n, i, d>>)]
+    IN IF IsInfC(S, n) THEN S2 ELSE DgBlock(S2, n, Cu(S2, i).srv, d)
 
 ----------------------------------------------------------------------------
 (* Events at a service node *)
@@ -982,7 +1020,12 @@ ExecEvent(S, a) ==
         \* StateTracker.timestamp() after each event of simulate_until_max_time / max_customers
         stamp(T) == IF T.cfg.stop = "deadlock" \/ T.cfg.tracker = "none" \/ T.trkprev = TrkState(T) THEN T
                     ELSE [T EXCEPT !.trk.hl = @ + 1, !.trk.ht = T.now, !.trkprev = TrkState(T)]
-    IN {IF Ok(T) THEN stamp(UpdateAll(T, 1)) ELSE T : T \in body}
+        \* simulate_until_deadlock: after the event, if a blockage happened, ask the detector
+        detect(T) == IF T.cfg.stop = "deadlock" /\ T.unchecked
+                     THEN LET k == HasDetector(T) /\ Knot(T.dg)
+                          IN [Step(T, [St("ddl") EXCEPT !.x = IF k THEN 1 ELSE 0]) EXCEPT !.unchecked = FALSE, !.dl = k]
+                     ELSE T
+    IN {IF Ok(T) THEN detect(stamp(UpdateAll(T, 1))) ELSE T : T \in body}
 
 \* all successors by one event (model-checking mode: any tie-break)
 Event(S) == UNION {ExecEvent(S, a) : a \in ArgMin(S)}
@@ -1024,7 +1067,7 @@ InitStates(cfg, mode, script) ==
                nodes |-> [n \in 1..cfg.N |-> InitNode(cfg, n)],
                cu |-> <<>>, exit |-> <<>>,
                steps |-> <<>>, recs |-> <<>>, ev |-> [kind |-> "init", node |-> 0, cls |-> 0, date |-> 0],
-               unchecked |-> FALSE, trk |-> TrkInit(cfg), gb |-> <<>>,
+               unchecked |-> FALSE, trk |-> TrkInit(cfg), gb |-> <<>>, dg |-> {}, dl |-> FALSE,
                trkprev |-> <<TrkInit(cfg).a, TrkInit(cfg).b, TrkInit(cfg).m>>,
                rt |-> [k \in 1..cfg.K |-> [n \in 1..cfg.N |-> 0]],
                cfg |-> cfg, mode |-> mode, script |-> script, err |-> ""]
